@@ -125,12 +125,32 @@ def canon_leaf(t: Term) -> Tuple[Term, bool]:
     return t, True
 
 
+def _optional(x: Term) -> bool:
+    x = T.strip(x)
+    return x[0] in ("ifexp", "phi") and T.NONE in (T.strip(x[2]), T.strip(x[3]))
+
+
+def distribute(t: Term) -> Term:
+    """A comparison with a conditional operand is the conditional of the comparisons
+    (`(a if c else None) is None` is `(a is None) if c else True`)."""
+    t = T.strip(t)
+    if t[0] == "cmp" and t[1] in ("is", "isnot") and T.NONE in (t[2], t[3]):
+        for k in (2, 3):
+            x = T.strip(t[k])
+            if x[0] in ("ifexp", "phi"):
+                mk = lambda y: ("cmp", t[1], y, t[3]) if k == 2 else ("cmp", t[1], t[2], y)  # noqa: E731
+                return ("ifexp", x[1], distribute(mk(x[2])), distribute(mk(x[3])))
+        if t[1] in ("is", "isnot") and t[2][0] == "const" and t[3][0] == "const":
+            return ("const", (t[2][1] is t[3][1]) == (t[1] == "is"))
+    return t
+
+
 def leaves(t: Term, truthy=None) -> List[Term]:
     """Canonical leaves of a condition (through and/or/not/ifexp)."""
     out: List[Term] = []
 
     def walk(x: Term) -> None:
-        x = T.strip(x)
+        x = distribute(x)
         if x[0] == "const" or x == TRY_MERGE:
             return
         if x[0] == "not":
@@ -140,10 +160,19 @@ def leaves(t: Term, truthy=None) -> List[Term]:
                 walk(y)
         elif x[0] in ("ifexp", "phi"):
             walk(x[1]); walk(x[2]); walk(x[3])
+        elif x[0] == "call" and x[1] == ("glob", "bool") and len(x[2]) == 1 and not x[3]:
+            walk(x[2][0])
         elif x[0] == "bag" and all(not e[3] for e in x[1]):
             for e in x[1]:
                 for g in e[2]:
                     walk(g[1])
+        elif x[0] == "cmp" and any(_optional(x[i]) for i in (2, 3)):
+            i = 2 if _optional(x[2]) else 3
+            y = T.strip(x[i])
+            walk(y[1])
+            for br in (y[2], y[3]):
+                if T.strip(br) != T.NONE:
+                    walk(("cmp", x[1], br, x[3]) if i == 2 else ("cmp", x[1], x[2], br))
         elif x[0] == "cmp" and any(T.strip(y)[0] == "agg" and T.strip(y)[1] == "sum" and all(not e[3] for e in T.strip(y)[2][1]) for y in (x[2], x[3])) \
                 and all(T.strip(y)[0] in ("agg", "const") for y in (x[2], x[3])):
             for y in (x[2], x[3]):
@@ -181,7 +210,7 @@ def resolve_phi(t: Any, assign: Dict[Term, bool], truthy=None) -> Any:
 
 
 def eval_leaves(t: Term, assign: Dict[Term, bool], truthy=None) -> bool:
-    t = T.strip(t)
+    t = distribute(t)
     k = t[0]
     if t == TRY_MERGE:
         return True          # the no-exception path of a try statement (handlers are analysed on their own)
@@ -195,6 +224,8 @@ def eval_leaves(t: Term, assign: Dict[Term, bool], truthy=None) -> bool:
         return any(eval_leaves(x, assign, truthy) for x in t[1])
     if k in ("ifexp", "phi"):
         return eval_leaves(t[2], assign, truthy) if eval_leaves(t[1], assign, truthy) else eval_leaves(t[3], assign, truthy)
+    if k == "call" and t[1] == ("glob", "bool") and len(t[2]) == 1 and not t[3]:
+        return eval_leaves(t[2][0], assign, truthy)
     if k == "bag" and all(not e[3] for e in t[1]):
         # truthiness of a collection built from guarded elements: non-empty iff some guard holds
         return any(all(eval_leaves(g[1], assign, truthy) == g[2] for g in e[2]) for e in t[1])
@@ -202,6 +233,12 @@ def eval_leaves(t: Term, assign: Dict[Term, bool], truthy=None) -> bool:
         v = truthy(t)
         if v is not None:
             return v
+    if k == "cmp" and any(_optional(t[i]) for i in (2, 3)):
+        # a comparison with an operand that is `x if c else None`: decide the condition, compare with the chosen branch
+        i = 2 if _optional(t[2]) else 3
+        x = T.strip(t[i])
+        chosen = x[2] if eval_leaves(x[1], assign, truthy) else x[3]
+        return eval_leaves(("cmp", t[1], chosen, t[3]) if i == 2 else ("cmp", t[1], t[2], chosen), assign, truthy)
     if k == "cmp" and t[1] in ("<", "<=", "==", "!="):
         # counting conditions: sum(<boolean> for ...) compared with a number
         def num(x):
